@@ -19,6 +19,8 @@ ASSUMPTIONS = [
 ]
 
 GOL = "cd tools/gol && go run . -repo /repo -out ../../lean/TensorModel/Generated/Core.lean"
+GOX = "cd tools/gox && go run . -repo /repo -out ../../lean/TensorModel/Generated"
+GOX_TRUST = "tools/gox (go/ast -> MiniGo tables: type abstraction, alpha-renaming) and the meaning of MiniGo constructs; operator tokens are names, evaluated by the Go compiler in the harness - Props/C17 proves every generated kernel and dispatch arm this property runs through to be the instance of its family's template"
 GLUE = "cd tools/gluex && go run . -repo /repo -out ../../lean/TensorModel/Generated/Glue.lean"
 GLUE_TRUST = ("tools/gluex (go/ast -> table of the engine / method / package-function glue: per function the id of its body with the "
               "operation's own name and the element-type class abstracted; the abstraction is textual on identifiers and string literals) - "
@@ -58,9 +60,9 @@ PROPS = {
         "rule": "parents of rank 1-3 (quick) / 1-4 (thorough), dims 1-4, 8 element types, 3 constructors; views = slice / lazy transpose / slice of transpose / slice of slice; one of 9 scenarios per program: Memset, Zero, Copy into the view, write through the parent, Clone + writes on both sides, Materialize, SafeT, CopyTo, Copy out; the parent's and the view's full dumps (elements by At, raw window) are compared after the writes",
     },
     "C06": {
-        "lean_modules": ["C06", "C17glue"],
-        "pre_cmds": [GLUE, GOL],
-        "trusted_extra": [GLUE_TRUST, GOL_TRUST],
+        "lean_modules": ["C06", "C17glue", "C17"],
+        "pre_cmds": [GOX, GLUE, GOL],
+        "trusted_extra": [GOX_TRUST, GLUE_TRUST, GOL_TRUST],
         "rule": "every arithmetic op (add sub mul div mod pow) x 14 numeric element types x {tensor-tensor, tensor-scalar, scalar-tensor} x {package function, method} with rotating shapes (rank 0-4 incl. scalar, (1), (1,1), row/column vectors) and operand layouts {contiguous, lazily transposed, offset slice, stepped slice, materialised}; all 25 layout pairs on every shape; refusals (bool/string operands, mismatched dtypes and shapes); value sets with overflow, negatives, zero divisors (floats), NaN/Inf; model terms are evaluated with Go's own operators and compared bit-exactly with the library's result; every operand is dumped after the call",
     },
     "C07": {
@@ -70,7 +72,9 @@ PROPS = {
         "rule": "every arithmetic and comparison op x {safe, unsafe, reuse, incr, reuse aliasing the first / second operand, incr aliasing an operand} x {TT, TS, ST} x operand layouts as C06 x destination layouts {contiguous, sliced view, lazily transposed}; identity of the returned tensor and full dumps (elements + raw window) of result, every operand, the destination and the first parent after the call",
     },
     "C08": {
-        "lean_modules": ["C08"],
+        "lean_modules": ["C08", "C17"],
+        "pre_cmds": [GOX],
+        "trusted_extra": [GOX_TRUST],
         "rule": "Sum/Max/Min (engine function and Dense method), Argmax/Argmin (function and method) and (*Dense).Reduce(x+y) x element types (Sum 14 numeric, Max/Min 12 ordered numeric, Arg 13 ordered incl. string, Reduce all 16; bool/string/complex refusals) x 24 shapes of rank 1-4 (vector-like, length-one axes, rank-4 shapes whose middle axes have extent 1,2,3,4) x every non-empty axis subset in ascending and shuffled order plus 'no axes' (every single axis and AllAxes for arg-reductions and Reduce) x operand layouts {contiguous, lazily transposed, offset slice, stepped slice, materialised} plus low-volume column-major, contiguous leading-axis view, clone of a stepped view x value sets {distinct, special: overflow/extremes/NaN/Inf, small positive, ties+negatives}, ties forced by memset/zero/setat on sub-views; malformed stream. Model terms name the kernel's exact fold order and scalar function and are evaluated with Go's operators (bit-exact); S folds canonically and is value-checked where every fold order agrees, shape-checked always; arg indices are computed in Lean from the known order of the generated values; result, operand and first parent are dumped after each call.",
     },
     "C09": {
@@ -82,15 +86,15 @@ PROPS = {
         "rule": '1-4 operands x base shapes of rank 1-4 (vector-like shapes included) x every valid axis (concat 0..rank-1, stack 0..rank, repeat 0..rank-1 and AllAxes) x operand layouts {contiguous, lazily transposed, offset slice, stepped slice, materialised, contiguous row-slice} independently per operand x {function, method} for Concat/Stack/Repeat, Hstack, Vstack, RepeatReuse (right, wrong and non-contiguous reuse) x counts {one broadcast 0-3, per-entry 0-3, exactly one survivor} x u8,i16,f32,f64,c128,str; every program runs the calculator (Shape.Concat/Shape.Repeat) on the same arguments first; malformed stream (axes rank, rank+1, -1, -2, -3; wrong count length; off-axis/rank mismatches; permuted equal-size shapes; the same tensor repeated; rank-0; vector-axis-1 extension; masked Concat operands); after each op: result dump, returned-tensor identity, opsame (metadata + mask of every operand unchanged), dumps of every pre-existing tensor',
     },
     "C11": {
-        "lean_modules": ["C11", "C17glue"],
-        "pre_cmds": [GLUE],
-        "trusted_extra": [GLUE_TRUST],
+        "lean_modules": ["C11", "C17glue", "C17"],
+        "pre_cmds": [GOX, GLUE],
+        "trusted_extra": [GOX_TRUST, GLUE_TRUST],
         "rule": "6 comparisons x all ordered (for eq/ne: all comparable, incl. bool, complex, string) element types x {TT, TS, ST} x {bool result, AsSameType, unsafe, bool reuse, same-type reuse} x operand layouts as C06, values with ties, NaN, extremes; refusals of unordered / mismatched types and shapes",
     },
     "C12": {
-        "lean_modules": ["C12", "C17glue"],
-        "pre_cmds": [GLUE],
-        "trusted_extra": [GLUE_TRUST],
+        "lean_modules": ["C12", "C17glue", "C17"],
+        "pre_cmds": [GOX, GLUE],
+        "trusted_extra": [GOX_TRUST, GLUE_TRUST],
         "rule": "15 unary operations (neg inv square cube exp tanh log log2 log10 sqrt cbrt invsqrt abs sign clamp) and Dense.Apply x 16 element types (accepted and refused ones) x {safe, unsafe, reuse, incr, reuse aliasing the operand} x operand/destination layouts as C06/C07; value sets with 0, negatives, extremes, NaN/Inf; the model's term is evaluated with the same Go maths routine the kernel names and compared bit-exactly",
     },
     "C14": {
